@@ -34,11 +34,11 @@ Series(f, s) == [i \in DOMAIN s |-> Val(f, s[i])]
 (* combos: sampling interval in minutes x family *)
 Combo(c) == CASE c = 1 -> [im |-> 1440,   f |-> 1]     \* daily
               [] c = 2 -> [im |-> 105120, f |-> 3]     \* 73 days
-              [] c = 3 -> [im |-> 60,     f |-> 4]     \* hourly, values near one another
-              [] c = 4 -> [im |-> 1,      f |-> 4]     \* minutely (annualisation exponent too large to evaluate: volatility etc. only)
+              [] c = 3 -> [im |-> 720,    f |-> 4]     \* 12 hours, values near one another
+              [] c = 4 -> [im |-> 1,      f |-> 4]     \* minutely (annualisation exponent beyond PMax: all clauses but the annualised value)
               [] c = 5 -> [im |-> 1440,   f |-> 2]
               [] c = 6 -> [im |-> 10080,  f |-> 1]     \* weekly: 365/(7n) never an integer
-              [] c = 7 -> [im |-> 720,    f |-> 4]
+              [] c = 7 -> [im |-> 60,     f |-> 4]     \* hourly (exponent 8760/n: evaluated for n >= 9 only)
               [] c = 8 -> [im |-> 43200,  f |-> 3]     \* 30 days
 Combos == IF Mode = 2 THEN 1 .. 8 ELSE IF Level > 1 THEN 1 .. 8 ELSE 1 .. 4
 
